@@ -432,7 +432,7 @@ theorem C01_save_metas_syncs_around_write :
 
 /-- **the full discipline holds for every run of the writer model**: for every state whose newest
 `meta.json` is durable (`Synced`: true after `Index::create` and after every event), and EVERY
-sequence of writer events — segment flushes of workers and merge threads, commits, `end_merge`s
+sequence of writer events — file-phase operations of any number of indexing workers / merge\nthreads in any interleaving (`WEv.files`), whole-segment flushes, commits, `end_merge`s
 of committed segments (with their own `save_metas` + collection), explicit collections, in any
 order and number, which is what any merge policy or policy switch can produce — whose local side
 conditions hold, the issued storage operations break NONE of D0–D4. With
@@ -509,5 +509,85 @@ theorem C01_writer_runs_recover_from_created (a b : Nat) (evs : List WEv)
   C01_writer_runs_recover PState.created C01_created_inv C01_created_synced a b evs hr k img hc
 
 example : ∃ m, Op.atomicWrite META m ∈ demoTrace.take 30 ∧ m.commit = 2 := ⟨⟨2, 7, 40, [5]⟩, by decide, rfl⟩
+
+/-- **the per-run verdict is literally the hypothesis of the main theorem**: what the driver
+decides on a real operation log — `invB` of the state reached when `Index::create` returned and
+`Disciplined` of the rest of the log from that state — are exactly the two hypotheses of
+`C01_recover_disciplined`; so for every real log on which the run-time verdict is "ok", every
+prefix and every crash image recovers a commit in `[lastAcked, lastStarted]` with all files sealed. -/
+theorem C01_run_verdict_is_hypothesis (s0 : PState) (pre t : List Op)
+    (hinv : invB (s0.run pre) = true) (hd : Disciplined (s0.run pre) t = true) (k : Nat) (img : Image)
+    (hi : CrashImage ((s0.run pre).dir.run (t.take k)) img) :
+    ∃ j, recover img = some j ∧ lastAcked (s0.run pre).acked (t.take k) ≤ j ∧
+      j ≤ lastStarted (s0.run pre).started (t.take k) ∧
+      ∃ m, img.atom META = some m ∧ m.commit = j ∧ ∀ p ∈ m.refs, sealedIn img p = true :=
+  C01_recover_disciplined _ ((invB_iff _).mp hinv) t hd k img hi
+
+example : invB PState.created = true := by decide
+example : invB ({ dir := Dir.empty, acked := 0, started := 0 } : PState) = false := by decide
+
+
+/-- non-vacuity of the generalised file event: two workers writing two segments' files
+interleaved, then a commit that references both -/
+example : WRun 0 0 PState.created
+    [ .files [.atomicWrite MANAGED ⟨0, 1, 9, [0, 2]⟩, .create 2, .atomicWrite MANAGED ⟨0, 2, 9, [0, 2, 3]⟩, .create 3,
+              .write 3 4, .write 2 6, .write 2 4, .flush 3, .terminate 3, .flush 2, .terminate 2],
+      .commit ⟨0, 3, 9, [0, 2, 3]⟩ [] ⟨5, 4, 50, [2, 3]⟩ [] ] := by
+  simp [WRun, WOk, fileOpsOk, isFileOp, violations, freshFiles, WEv.ops, coreOps, writeAll, syncs, PState.created,
+    PState.run, PState.step, Dir.step, Dir.empty, upd, FileSt.ready, FileSt.sync, metaCands, AtomSt.cands,
+    AtomSt.sync, AtomSt.visible, META, MANAGED]
+
+theorem cover_prun (s : PState) (h : Cover s.dir) (t : List Op) : Cover (s.run t).dir := by
+  rw [run_dir]; exact h.run t
+
+theorem cover_created : Cover PState.created.dir := cover_prun _ cover_empty _
+
+/-- **the full enumerator is sound too**: every element of `crashImages` (all outcome
+combinations over the touched paths, used by the counterexample theorems) is a `CrashImage`,
+at every point of every log from the empty directory -/
+theorem C01_crash_images_enumerator_sound (t : List Op) (img : LImage)
+    (h : img ∈ crashImages (Dir.empty.run t)) : CrashImage (Dir.empty.run t) img.toImage :=
+  crashImages_sound _ (cover_empty.run t) img h
+
+/-- hence the two witnesses of `C01_d3_counterexample` are crash images in the sense of the
+fault model (`CrashImage`), not only members of the enumeration -/
+theorem C01_d3_counterexample_images_are_crash_images :
+    CrashImage (afterCommit1.run (commit2Unsynced false)).dir
+      (LImage.toImage { files := [(3, some (7, true)), (2, some (10, true))],
+                        atoms := [(MANAGED, some ⟨0, 3, 12, [0, 2, 3]⟩), (META, some ⟨1, 2, 50, [2]⟩)] }) ∧
+    CrashImage (afterCommit1.run ((commit2Unsynced true).take 8)).dir
+      (LImage.toImage { files := [(3, some (7, true)), (2, none)],
+                        atoms := [(MANAGED, some ⟨0, 3, 12, [0, 2, 3]⟩), (META, some ⟨1, 2, 50, [2]⟩)] }) :=
+  ⟨crashImages_sound _ (cover_prun _ (cover_prun _ cover_created _) _) _ C01_d3_counterexample.1.2.1,
+   crashImages_sound _ (cover_prun _ (cover_prun _ cover_created _) _) _ C01_d3_counterexample.2.1⟩
+
+/-- **an acknowledged commit survives every later crash**: along a disciplined trace, once
+`commit()` has returned opstamp `c` (the `ack c` is in the prefix), every crash image at that or
+any later point recovers a commit `j ≥ c` — never an older one — whose files are all sealed. -/
+theorem C01_acked_commit_survives (s0 : PState) (h0 : Inv s0) (t : List Op)
+    (hd : Disciplined s0 t = true) (k : Nat) (c : Nat) (hc : Op.ack c ∈ t.take k) (img : Image)
+    (hi : CrashImage (s0.dir.run (t.take k)) img) :
+    ∃ j, recover img = some j ∧ c ≤ j ∧ j ≤ lastStarted s0.started (t.take k) := by
+  obtain ⟨j, h1, h2, h3, _⟩ := C01_recover_disciplined s0 h0 t hd k img hi
+  exact ⟨j, h1, Nat.le_trans (le_lastAcked_of_mem _ _ c hc) h2, h3⟩
+
+example : Op.ack 2 ∈ demoTrace.take 30 := by decide
+
+/-!
+## OPEN (not proved; tied to the code by the run only)
+
+* OPEN: the storage fault model itself — that `terminate` = `fdatasync`, `sync_directory` =
+  `fsync(dirfd)`, `tempfile::persist` = `rename`, and that the logged order of concurrent
+  threads is a legal linearisation — is the model of the property's quantifier, not verified
+  (the strace / MmapDirectory mapping check is not built).
+* OPEN: the side conditions `WOk` of the writer events (new files are fresh, a new `meta.json`
+  references only finished files, …) and the decomposition of a real log into `WEv`s are not
+  proved of the Rust code. Under concurrency a real log is not a concatenation of the coarse
+  events (a merge thread's file operations interleave with the updater's `save_metas`), so the
+  tie is `C01_run_verdict_is_hypothesis`: the same rules are decided per operation on every
+  real log, and that verdict is literally the hypothesis of `C01_recover_disciplined`.
+* OPEN: `recover` (meta present, referenced files sealed) is the specification of
+  `Index::open` + searcher; their agreement is checked on every materialised image, not proved.
+-/
 
 end TantivyModel.C01
